@@ -17,8 +17,8 @@ EXTENDS CacheDJudge, Json, IOUtils
 
 Rec == ndJsonDeserialize(IOEnv.TRACE)
 
-VARIABLES l, st, gh, rep
-vars == <<l, st, gh, rep>>
+VARIABLES l, st, gh, rep, pred
+vars == <<l, st, gh, rep, pred>>
 
 -----------------------------------------------------------------------------
 (* JSON -> model values *)
@@ -115,7 +115,7 @@ DivFields(P, A, r, predRet) ==
 -----------------------------------------------------------------------------
 (* the trace machine *)
 
-Init == l = 1 /\ st = [none |-> TRUE] /\ gh = [none |-> TRUE] /\ rep = [div |-> <<>>, verdicts |-> <<>>, steps |-> 0, runs |-> 0,
+Init == l = 1 /\ st = [none |-> TRUE] /\ gh = [none |-> TRUE] /\ pred = [none |-> TRUE] /\ rep = [div |-> <<>>, verdicts |-> <<>>, steps |-> 0, runs |-> 0,
                                                                        unmodelled |-> {}, ndiv |-> 0, nverd |-> 0, oor |-> 0]
 
 MaxKept == 40
@@ -134,61 +134,63 @@ DoReset(r) ==
   LET S0 == InitState(CfgOf(r.cfg), DOMAIN r.pc)
   IN /\ st' = Adopted(S0, r)
      /\ gh' = GhostInit(st')
+     /\ pred' = [none |-> TRUE]
      /\ rep' = [rep EXCEPT !.runs = @ + 1]
 
+\* pred: the prediction for the current step (TLC does not memoise LET definitions that depend on the state, so every value
+\* that is used more than once is first bound to a primed variable and then read back)
 DoStep(r) ==
   LET a == r.actor
       isEnv == a = "env"
-      inp == InpOf(r)
       known == ~isEnv /\ a \in DOMAIN st.pc /\ st.pc[a] = r.site /\ r.site \in Modelled
-      E == IF isEnv THEN [st |-> EffAdvance(st, r.op.d), ret |-> NoRet]
-           ELSE IF known THEN Eff(st, a, inp) ELSE [st |-> st, ret |-> NoRet]
-      A0 == Adopted(E.st, r)
-      \* the position of a multi-key read follows the OBSERVED lookups (one C_Get step each), whatever the model predicted
-      A == IF ~isEnv /\ IsCaller(a) /\ r.site \in {"C_Get", "C_Access"} /\ r.op.op \in {"get", "mget"} /\ a \in DOMAIN gh.obs
-              /\ r.next \in {"C_Get", "C_Access"}
-           THEN LET ks == ReadKeySeq(r.op)
-                    done == Len(gh.obs[a]) + (IF r.site = "C_Get" THEN 1 ELSE 0)
-                    from == IF r.next = "C_Access" THEN done ELSE done + 1
-                IN [A0 EXCEPT !.lc[a].keys = IF from >= 1 /\ from <= Len(ks) THEN SubSeq(ks, from, Len(ks)) ELSE <<>>,
-                              !.lc[a].op = r.op]
-           ELSE IF ~isEnv /\ a = "worker" /\ r.site \in {"W_Recv", "W_Drain"} /\ HasEv(r, "recv")
-                   /\ EvF(r, "recv")[1] \in DOMAIN st.cmds /\ st.queue # <<>> /\ Head(st.queue).ack # EvF(r, "recv")[1]
-           THEN \* the worker received another command than the head of the model's queue (C11 judges that): follow the code
-                LET c == st.cmds[EvF(r, "recv")[1]]
-                    pos == {i \in DOMAIN st.queue : st.queue[i].ack = c.ack}
-                    q2 == IF pos = {} THEN st.queue ELSE LET i == CHOOSE x \in pos : TRUE IN SubSeq(st.queue, 1, i - 1) \o SubSeq(st.queue, i + 1, Len(st.queue))
-                IN [A0 EXCEPT !.queue = q2,
-                              !.lc[a] = IF r.site = "W_Drain" THEN NoLc ELSE [NoLc EXCEPT !.cmd = c, !.id = c.id, !.w = c.w, !.key = c.key]]
-           ELSE IF ~isEnv /\ a = "sweeper" /\ HasEv(r, "sweep")
-           THEN [A0 EXCEPT !.lc[a].t = EvF(r, "sweep")[1], !.lc[a].shard = EvF(r, "sweep")[3],
-                           !.lc[a].id = IF r.next = "K_DelKw" THEN r.narg ELSE @]
-           ELSE IF ~isEnv /\ a = "sweeper" /\ r.next = "K_DelKw"
-           THEN [A0 EXCEPT !.lc[a].id = r.narg]
-           ELSE A0
-      \* values near i64::MAX / Duration::MAX are clamped in the trace (two-zone encoding): arithmetic on them is outside the model's range
-      oor == \/ A.used >= Huge \/ st.used >= Huge \/ A.used <= -Huge
-             \/ \E id \in DOMAIN A.kw : A.kw[id].w >= Huge
-             \/ \E n \in DOMAIN A.stats : A.stats[n] >= Huge \/ A.stats[n] <= -Huge
-             \/ \E k \in DOMAIN A.store : A.store[k].exp >= 1000000
-             \/ r.op.w >= Huge \/ r.op.ttl >= 1000000 \/ r.op.ttl_ns # 0   \* (the model's clock has whole seconds)
-             \/ (a \in DOMAIN st.lc /\ (st.lc[a].w >= Huge \/ st.lc[a].cmd.ttl >= 1000000 \/ st.lc[a].cmd.w >= Huge \/ st.lc[a].exp >= 1000000))
-      div == IF (isEnv \/ known) /\ ~oor THEN DivFields(E.st, A, r, E.ret) ELSE {}
-      G2 == GhostNext(gh, st, a, r.site, inp, A, r)
-      verdicts == Judge(st, a, r.site, inp, A, r, gh, G2)
-      newV == verdicts
-  IN /\ st' = A
-     /\ gh' = G2
-     /\ rep' = [rep EXCEPT
-                  !.steps = @ + 1,
-                  !.ndiv = @ + (IF div = {} THEN 0 ELSE 1),
-                  !.div = IF div # {} /\ Len(@) < MaxKept
-                          THEN Append(@, [run |-> r.run, i |-> r.i, actor |-> a, site |-> r.site, next |-> r.next, fields |-> div])
-                          ELSE @,
-                  !.unmodelled = IF ~isEnv /\ ~known THEN @ \cup {r.site} ELSE @,
-                  !.oor = @ + (IF oor THEN 1 ELSE 0),
-                  !.nverd = @ + Len(newV),
-                  !.verdicts = Merge(@, newV, r.run, r.i)]
+  IN /\ pred' = LET inp == InpOf(r)
+                    E == IF isEnv THEN [st |-> EffAdvance(st, r.op.d), ret |-> NoRet]
+                         ELSE IF known THEN Eff(st, a, inp) ELSE [st |-> st, ret |-> NoRet]
+                IN [st |-> E.st, ret |-> E.ret, inp |-> inp]
+     /\ st' = LET A0 == Adopted(pred'.st, r) IN
+              \* the position of a multi-key read follows the OBSERVED lookups (one C_Get step each), whatever the model predicted
+              IF ~isEnv /\ IsCaller(a) /\ r.site \in {"C_Get", "C_Access"} /\ r.op.op \in {"get", "mget"} /\ a \in DOMAIN gh.obs
+                 /\ r.next \in {"C_Get", "C_Access"}
+              THEN LET ks == ReadKeySeq(r.op)
+                       done == Len(gh.obs[a]) + (IF r.site = "C_Get" THEN 1 ELSE 0)
+                       from == IF r.next = "C_Access" THEN done ELSE done + 1
+                   IN [A0 EXCEPT !.lc[a].keys = IF from >= 1 /\ from <= Len(ks) THEN SubSeq(ks, from, Len(ks)) ELSE <<>>,
+                                 !.lc[a].op = r.op]
+              ELSE IF ~isEnv /\ a = "worker" /\ r.site \in {"W_Recv", "W_Drain"} /\ HasEv(r, "recv")
+                      /\ EvF(r, "recv")[1] \in DOMAIN st.cmds /\ st.queue # <<>> /\ Head(st.queue).ack # EvF(r, "recv")[1]
+              THEN \* the worker received another command than the head of the model's queue (C11 judges that): follow the code
+                   LET c == st.cmds[EvF(r, "recv")[1]]
+                       pos == {i \in DOMAIN st.queue : st.queue[i].ack = c.ack}
+                       q2 == IF pos = {} THEN st.queue ELSE LET i == CHOOSE x \in pos : TRUE IN SubSeq(st.queue, 1, i - 1) \o SubSeq(st.queue, i + 1, Len(st.queue))
+                   IN [A0 EXCEPT !.queue = q2,
+                                 !.lc[a] = IF r.site = "W_Drain" THEN NoLc ELSE [NoLc EXCEPT !.cmd = c, !.id = c.id, !.w = c.w, !.key = c.key]]
+              ELSE IF ~isEnv /\ a = "sweeper" /\ HasEv(r, "sweep")
+              THEN [A0 EXCEPT !.lc[a].t = EvF(r, "sweep")[1], !.lc[a].shard = EvF(r, "sweep")[3],
+                              !.lc[a].id = IF r.next = "K_DelKw" THEN r.narg ELSE @]
+              ELSE IF ~isEnv /\ a = "sweeper" /\ r.next = "K_DelKw"
+              THEN [A0 EXCEPT !.lc[a].id = r.narg]
+              ELSE A0
+     /\ gh' = GhostNext(gh, st, a, r.site, pred'.inp, st', r)
+     /\ rep' = LET A == st'
+                   \* values near i64::MAX / Duration::MAX are clamped in the trace (two-zone encoding): arithmetic on them is outside the model's range
+                   oor == \/ A.used >= Huge \/ st.used >= Huge \/ A.used <= -Huge
+                          \/ \E id \in DOMAIN A.kw : A.kw[id].w >= Huge
+                          \/ \E n \in DOMAIN A.stats : A.stats[n] >= Huge \/ A.stats[n] <= -Huge
+                          \/ \E k \in DOMAIN A.store : A.store[k].exp >= 1000000
+                          \/ r.op.w >= Huge \/ r.op.ttl >= 1000000 \/ r.op.ttl_ns # 0   \* (the model's clock has whole seconds)
+                          \/ (a \in DOMAIN st.lc /\ (st.lc[a].w >= Huge \/ st.lc[a].cmd.ttl >= 1000000 \/ st.lc[a].cmd.w >= Huge \/ st.lc[a].exp >= 1000000))
+                   div == IF (isEnv \/ known) /\ ~oor THEN DivFields(pred'.st, A, r, pred'.ret) ELSE {}
+                   newV == Judge(st, a, r.site, pred'.inp, A, r, gh, gh')
+               IN [rep EXCEPT
+                     !.steps = @ + 1,
+                     !.ndiv = @ + (IF div = {} THEN 0 ELSE 1),
+                     !.div = IF div # {} /\ Len(@) < MaxKept
+                             THEN Append(@, [run |-> r.run, i |-> r.i, actor |-> a, site |-> r.site, next |-> r.next, fields |-> div])
+                             ELSE @,
+                     !.unmodelled = IF ~isEnv /\ ~known THEN @ \cup {r.site} ELSE @,
+                     !.oor = @ + (IF oor THEN 1 ELSE 0),
+                     !.nverd = @ + Len(newV),
+                     !.verdicts = Merge(@, newV, r.run, r.i)]
 
 Next ==
   /\ l <= Len(Rec)
@@ -198,9 +200,9 @@ Next ==
          [] r.t = "step" -> DoStep(r)
          [] r.t = "end" /\ r.site \in {"E_End", "E_Stuck"} ->
               LET vs == JudgeEnd(Adopted(st, r), gh, r.site = "E_Stuck")
-              IN /\ UNCHANGED <<st, gh>>
+              IN /\ UNCHANGED <<st, gh, pred>>
                  /\ rep' = [rep EXCEPT !.nverd = @ + Len(vs), !.verdicts = Merge(@, vs, r.run, r.i)]
-         [] OTHER -> UNCHANGED <<st, gh, rep>>
+         [] OTHER -> UNCHANGED <<st, gh, rep, pred>>
 
 Spec == Init /\ [][Next]_vars
 
